@@ -79,6 +79,18 @@ func runMint(t *testing.T, seed int64, n int, dir string) {
 		}
 		start := int64(r.Intn(6))
 		period := int64(1 + r.Intn(8))
+		// boundary classes of the epoch numbers (int64 in the code, unbounded in the model): large start epoch, huge period
+		eclass := "small"
+		if x := r.Intn(100); x < 10 {
+			base := []int64{1<<31 - 3, 1<<32 - 3, 1 << 53, 1 << 62}[x%4]
+			start += base
+			eclass = fmt.Sprintf("start~2^%d", []int{31, 32, 53, 62}[x%4])
+			if r.Intn(4) == 0 {
+				period = []int64{1 << 31, 1 << 40}[r.Intn(2)] // start + period stays below 2^63
+				eclass += "+huge-period"
+			}
+		}
+		o.Count("class.epoch." + eclass)
 		factor := new(big.Int).Rand(r, new(big.Int).Add(e18, big.NewInt(1))) // [0,1]
 		switch r.Intn(4) {
 		case 0:
@@ -124,6 +136,34 @@ func runMint(t *testing.T, seed int64, n int, dir string) {
 		default:
 			prov = new(big.Int).Mul(big.NewInt(int64(1+r.Intn(100))), e18)
 		}
+		// magnitude classes of the provisions (whole tokens around 2^63, 2^64, 2^127..2^129, near the top of Dec)
+		pclass := "ordinary"
+		if x := r.Intn(100); x < 16 {
+			tok := func(bits int) *big.Int { // (2^bits + {-1,0,1}) tokens + a random fraction
+				v := new(big.Int).Add(pow2(bits), big.NewInt(int64(r.Intn(3)-1)))
+				v.Mul(v, e18)
+				if r.Intn(2) == 0 {
+					v.Add(v, new(big.Int).Rand(r, e18))
+				}
+				return v
+			}
+			switch x % 4 {
+			case 0:
+				prov, pclass = tok(63), "2^63"
+			case 1:
+				prov, pclass = tok(64), "2^64"
+			case 2:
+				prov, pclass = tok(127+r.Intn(3)), "2^127..2^129"
+			default:
+				// raw value of 300..305 bits: provisions x reduction factor exceeds the 315 bits of Dec before chopping,
+				// the sum of all mints of the history stays below 2^256
+				prov, pclass = new(big.Int).Add(pow2(300+r.Intn(5)), new(big.Int).Rand(r, pow2(300))), "near-dec-max"
+			}
+			if r.Intn(5) != 0 { // let the developer vesting account afford its share (else: insufficient-balance path)
+				h.FundModuleAcc(minttypes.DeveloperVestingModuleAcctName, sdk.NewCoins(sdk.NewCoin(denom, osmomath.NewIntFromBigInt(pow2(251)))))
+			}
+		}
+		o.Count("class.provisions." + pclass)
 		mk.SetMinter(ctx, minttypes.NewMinter(decRaw(prov)))
 		devAcc := ak.GetModuleAddress(minttypes.DeveloperVestingModuleAcctName)
 		vest := bk.GetBalance(ctx, devAcc, denom).Amount
@@ -148,6 +188,9 @@ func runMint(t *testing.T, seed int64, n int, dir string) {
 		first := int64(0)
 		if r.Intn(3) == 0 {
 			first = start
+		}
+		if eclass != "small" && r.Intn(3) != 0 { // a few epochs before the (large) start epoch
+			first = start - int64(r.Intn(4))
 		}
 		for e := first; e < first+int64(nEpochs) && epochsDone < n; e++ {
 			epochsDone++
